@@ -690,6 +690,11 @@ def check_movement(scn):
             if got not in (None, False, 0):
                 stats["truthy"] += 1
             if _matches(got, exp, fn):
+                # the same candle addressed from the end (negative index; -1 is the default of a direct call) means the same window
+                r2 = _call(f, cs, kw, i - n)
+                if r2[0] != "exc" and not _matches(r2[1], exp, fn):
+                    found.setdefault("meaning-negative-index", {"index": i - n, "length": L, "observed": r2[1],
+                                                                "expected": exp[0] if len(set(map(repr, exp))) == 1 else exp})
                 continue
             names = named(scn)
             cur_missing = any(series(scn, nm)[i] is None for nm in names)
@@ -1118,6 +1123,10 @@ def case_c17_pattern(rng, idx, params):
         meta["constructed"] = False
         return {"nontrivial": False, "key": ("noconstruct", idx), "violation": None, "meta": meta, "sample": None}
     stream, w = built
+    if rng.random() < 0.3:
+        # volume is no part of any documented shape: an untraded (zero-volume) witness is judged like any other
+        stream = list(stream)
+        stream[w] = tuple(stream[w][:5]) + (rng.choice([0, 0, 0.0, 250000]),)
     scn = {"mode": "pattern", "fn": fn, "violate": violate, "witness_index": w, "stream": [list(t) for t in stream],
            "scales": rng.sample(SCALES, 3), "shifts": rng.sample(SHIFTS, 3)}
     found, stats = check_pattern(scn)
